@@ -1,10 +1,12 @@
 import CJ.Drv.Loop
 import CJ.Drv.Codec
 import CJ.Drv.Alive
+import CJ.Drv.Base32
 /-! Driver for C15: the codec models. -/
 open CJ.Drv
 
 def main : IO Unit := runDriver fun
   | "codec" :: args => Codec.handle args
   | "alive" :: args => Alive.handle args
+  | "b32" :: args => Base32.handle args
   | _ => none
